@@ -16,7 +16,7 @@ RULE = ('cases: seeded operation histories (insert / replace / non-negative incr
 ASSUMPTIONS = ['a rejection bound that is stale-high is correct (only slower) and is not flagged; stale-low is']
 BUDGET = {'quick': 150, 'thorough': 1200}
 CHUNK = {'quick': 20, 'thorough': 100}
-REQUIRED = ['long_history_totals_checked', 'dominant_candidate_removals', 'laws_extracted', 'candidates_law_checked', 'totals_checked', 'heaviest_changes', 'zero_weight_candidates_seen', 'real_selections_checked']
+REQUIRED = ['endurance_runs', 'long_history_totals_checked', 'dominant_candidate_removals', 'laws_extracted', 'candidates_law_checked', 'totals_checked', 'heaviest_changes', 'zero_weight_candidates_seen', 'real_selections_checked']
 PATTERNS = ['random', 'heaviest_churn', 'drain_refill', 'equal', 'replace_heavy', 'zero_mix', 'dominant']
 FAMILIES = ['dyadic', 'nondyadic', 'wide', 'equal', 'withzero']
 
@@ -29,6 +29,9 @@ def gen_cases(tier, seed):
         r = random.Random(cs)
         out.append({'pattern': PATTERNS[k % len(PATTERNS)], 'family': r.choice(FAMILIES), 'weighted': (k % 11 != 10), 'size': r.choice([3, 8, 20, 60, 200]),
                     'nops': r.choice([20, 60, 150, 400]), 'seed': cs})
+        if k % 20 == 7:
+            # a long run of consecutive rejections has positive probability whenever some candidate is lighter than the heaviest one
+            out[-1]['endurance'] = r.choice([150, 1500, 15000] if tier == 'quick' else [150, 1500, 15000, 150000, 1200000])
         if k % 60 == 13:
             # long histories (one simulation of a few thousand events keeps a single candidate list alive for that long)
             out[-1].update({'nops': r.choice([5000, 9000, 20000]), 'size': r.choice([8, 20, 60]), 'pattern': r.choice(['random', 'heaviest_churn', 'replace_heavy', 'zero_mix'])})
@@ -83,6 +86,113 @@ class LawDriver(rngprobe.Driver):
                 return 0
             return 1
         return 0
+
+
+class EnduranceDriver(rngprobe.Driver):
+    """proposes one light candidate `k` times in a row and rejects it each time (an event of positive probability, however small),
+    then proposes the heaviest candidate, which is accepted."""
+    def __init__(self, light, heavy, k):
+        rngprobe.Driver.__init__(self, (), max_decisions=4 * k + 100)
+        self.light, self.heavy, self.k = light, heavy, k
+        self.proposals = 0
+        self.rejections = 0
+        self.decisions_n = 0
+
+    def decide(self, kind, probs, info=None):
+        self.decisions_n += 1
+        if self.decisions_n > self.max_decisions:
+            raise rngprobe.DepthExceeded()
+        if kind == 'choice':
+            self.proposals += 1
+            return self.light if self.proposals <= self.k else self.heavy
+        if kind == 'cmp':
+            if self.proposals <= self.k:
+                self.rejections += 1
+                return 1          # reject
+            return 0
+        return 0
+
+
+def endurance(L, shadow, k, res, tag):
+    """after k consecutive rejections the sampler must still be sampling: the item it finally returns is one it accepted."""
+    import EoN.simulation as sim
+    pos = [x for x in shadow if shadow[x] > 0]
+    if len(pos) < 2:
+        return
+    wmax = max(shadow[x] for x in pos)
+    light = min(pos, key=lambda x: shadow[x])
+    heavy = max(pos, key=lambda x: shadow[x])
+    if not (shadow[light] < 0.999 * wmax):
+        return
+    # population order as the sampler sees it
+    d0 = LawDriver(0)
+    px0 = rngprobe.RngProxy(driver=d0, copy_pop='ref')
+    px0.min_prob = 0.0
+    saved = sim.random
+    sim.random = px0
+    try:
+        L.choose_random()
+    finally:
+        sim.random = saved
+    ch = [e for e in px0.log if e[0] == 'choice']
+    if not ch:
+        return
+    pop = list(ch[0][1])
+    if light not in pop or heavy not in pop:
+        return
+    # A sampler that gives up and hands back the candidate it has just rejected does so deterministically; one that switches to another
+    # exact algorithm on a generator the proxy does not see returns `light` only with probability w_light/sum.  Repeat until that
+    # coincidence is below 1e-9 (or skip the case when that would take more than 12 repetitions).
+    frac = shadow[light] / sum(shadow[x] for x in pos)
+    reps = 1 if frac <= 1e-9 else int(math.ceil(9.0 / -math.log10(frac)))
+    if reps > 12:
+        return
+    bump(res, 'endurance_runs')
+    for rep in range(reps):
+        d = EnduranceDriver(pop.index(light), pop.index(heavy), k)
+        px = rngprobe.RngProxy(driver=d, copy_pop='ref')
+        px.min_prob = 0.0
+        px.log = _Tail()
+        sim.random = px
+        try:
+            got = L.choose_random()
+        finally:
+            sim.random = saved
+        setmax(res, 'max_consecutive_rejections_driven', d.rejections)
+        if px.log.other_after_last_choice:
+            bump(res, 'alternative_sampling_path_seen')        # it consulted further monitored randomness: another algorithm, judged by the law extraction / real selections
+            return
+        if d.rejections >= k and got == heavy:
+            return                                              # kept sampling and returned what it accepted
+        if got != light:
+            bump(res, 'alternative_sampling_path_seen')
+            return
+    viol(res, tag + '|returns_the_candidate_it_has_just_rejected', {'consecutive_rejections_before_giving_up': d.rejections, 'returned': repr(got), 'weight_of_returned': shadow.get(got),
+                                                                  'max_weight': wmax, 'repetitions': reps})
+
+
+class _Tail(object):
+    """constant-memory stand-in for the draw log: remembers only whether anything other than propose/accept draws came after the last proposal"""
+    def __init__(self):
+        self.other_after_last_choice = False
+        self.n = 0
+
+    def append(self, e):
+        self.n += 1
+        if e[0] == 'choice':
+            self.other_after_last_choice = False
+            self._cmp_seen = False
+        elif e[0] in ('cmp', 'uniform') and not getattr(self, '_cmp_seen', False):
+            if e[0] == 'cmp':
+                self._cmp_seen = True
+        else:
+            self.other_after_last_choice = True
+
+    def __iter__(self):
+        return iter(())
+
+    def __len__(self):
+        return self.n
 
 
 def extract_law(L, weighted, shadow, res, tag):
@@ -179,6 +289,7 @@ def run_case(case):
     tag = '_ListDict_|%s|%s' % ('weighted' if weighted else 'unweighted', pat)
     universe = [('n', i) if i % 2 else i for i in range(case['size'])]
     distinct_law = False
+    endured = False
     heaviest_before = None
 
     def op_insert(x, w):
@@ -305,6 +416,9 @@ def run_case(case):
                         bump(res, 'slow_rejection_states_skipped')
                     if len({shadow[x] for x in shadow if shadow[x] > 0}) >= 2 or (not weighted and len(shadow) >= 2):
                         distinct_law = True
+                    if weighted and case.get('endurance') and not endured and (step >= case['nops'] // 2):
+                        endured = True
+                        endurance(L, shadow, case['endurance'], res, tag)
     except rngprobe.DepthExceeded as e:
         res['inconclusive'] = 'law extraction bound: %r' % (e,)
         return res
